@@ -18,7 +18,7 @@ def run(ctx: Ctx) -> None:
         "(no VisitError). is_valid_expression's agreement relies on generate_possible_content_evaluation_results, which "
         "is only bounded-validated (C18) - decided here by the bounded part.")
     ctx.trust("A-LARK-FOLD", "generate_possible_content_evaluation_results covers every assignment (bounded-validated, C18)")
-    prove(ctx, CALLBACKS + AROUND[1:2])
+    prove(ctx, CALLBACKS + AROUND[1:2] + ["ahbicht.content_evaluation:is_valid_expression"])
     prove_lemmas(ctx, "contracts.c04_lemmas", ["step_and", "step_or", "step_xor", "step_then",
                                               "invalid_needs_a_requirement_or_format_key", "canary_or_never_raises"])
     run_bounded(ctx, "C06")
@@ -30,3 +30,6 @@ def run(ctx: Ctx) -> None:
     list_theory_obligations(ctx)
     from bounded import multipart_invalid
     guarded(ctx, "C06", lambda: multipart_invalid.run(ctx, "C06"))
+    # the validity check evaluates under EVERY possible content evaluation result (each handed to the setter once)
+    from bounded import setter_pairing
+    guarded(ctx, "C06", lambda: setter_pairing.run(ctx, "C06"), what="setter-pairing harness")
